@@ -12,7 +12,7 @@ import shutil
 import subprocess
 import sys
 
-SRC = "/tmp/seeded_out"
+SRC = os.environ.get("SEEDED_SRC", "/tmp/seeded_out")
 DST = "/verif/seeded"
 PROPS = {json.loads(l)["id"]: json.loads(l) for l in open("/verif/properties.jsonl")}
 
@@ -52,6 +52,9 @@ def main():
         diff = sh("git -C %s diff HEAD" % wt).stdout
         sh("git -C /repo worktree remove --force %s; git -C /repo worktree prune" % wt)
         prop = name.split("_")[0]
+        own = os.path.exists(os.path.join(d, "info.json"))
+        if own:
+            prop = json.load(open(os.path.join(d, "info.json")))["prop"]
         ok = ("49 passed" in baseline and demo_rc not in ("0", "na") and clean.returncode == 0 and diff.strip())
         out = os.path.join(DST, name)
         if not ok:
@@ -65,7 +68,8 @@ def main():
         fired = sorted(k for k, v in caught.items() if v["exit"] == 1)
         meta = {
             "name": name, "breaks_property": prop, "property_title": PROPS[prop]["title"],
-            "origin": "written by an independent sub-agent that was given only the property text and a scratch worktree",
+            "origin": ("reverse of one of the repository repairs of DESIGN.md section 8 (a historical defect the baseline tests never noticed); written by the framework author" if own else
+                       "written by an independent sub-agent that was given only the property text and a scratch worktree"),
             "needs_to_manifest": notes.strip()[:1500],
             "confirmed": {"baseline_with_patch": baseline, "demo_exit_with_patch": int(demo_rc), "demo_exit_on_clean_tree": clean.returncode,
                           "how": "tools/run_mutant.sh: scratch worktree of /repo HEAD, git apply, pytest baseline, demo.py with PYTHONPATH=<worktree>, then every quick check with VP_REPO=<worktree>"},
